@@ -168,5 +168,8 @@ fixed("C15", "0f8198b", ["c15:control-send:over-125-not-refused:write-frame"],
 fixed("C16", "3d2765e", ["c16:write:never-fired", "c16:established-connection-closed-with-dial-timeout"],
       "DialAsyncTimeout arms its timer after the connection was handed to the poller: when the connect completes first, the timer is armed on the established connection after the callback ran - it re-arms the write deadline the callback set (fires an hour late) or stays behind and later closes the connection with the dial timeout error (dialed histories with a dial timeout; 2 of 3 quick seeds)")
 
+fixed("C13", "9e69195", ["c13:frames-only:%s:%s" % (n, k) for n, k in (("text-then-binary", "frames-reported-with-wrong-message-type"), ("binary-then-text", "frames-reported-with-wrong-message-type"), ("fragmented-then-other-type", "frames-reported-with-wrong-message-type"), ("continuation-after-complete-message", "not-failed"), ("text-inside-fragmented", "not-failed"), ("binary-inside-fragmented", "not-failed"), ("continuation-after-fragmented-message-ended", "not-failed"))],
+      "endpoint with a data-frame callback only (Upgrader.OnDataFrame, no OnMessage): the message type and the 'fragments expected' flag are only maintained when a message handler is set - every frame is reported with the type of the first message ever, a stray continuation and a new data frame inside a fragmented message are accepted (pointed out as a side remark by a seeding agent; class frames-only)")
+
 json.dump(F, open("/verif/known_findings.json", "w"), indent=1)
 print("wrote %d entries (%d known)" % (len(F), sum(1 for f in F if f["status"] == "known")))
